@@ -3,10 +3,3 @@ package main
 import "encoding/hex"
 
 func hexDecode(s string) ([]byte, error) { return hex.DecodeString(s) }
-
-func cmdWorker(args []string)  {}
-func cmdCheck(args []string)   {}
-func cmdSelfDet(args []string) {}
-
-func (x *Exec) doProbe(op *Op)          {}
-func (x *Exec) doExportContinue(op *Op) {}
